@@ -290,9 +290,8 @@ func newBSC(t *rapid.T, p genParams) *inst {
 	s.epoch = uint64(rapid.IntRange(n/2+1, 9).Draw(t, "bsc_epoch"))
 	s.chainID = rapid.SampledFrom([]uint64{56, 97, 714, 1<<32 + 5}).Draw(t, "bsc_chain_id")
 	g := s.epoch * (drawHeight(t, p, "bsc_epochs"))
-	if p.low && rapid.IntRange(0, 3).Draw(t, "bsc_genesis_zero") == 0 {
-		g = 0
-	}
+	// (a genesis at block 0 of revision 0 is no longer generated: ClientState.Validate rejects the zero
+	// height since the C13 zero-height-client-export-invalid fix)
 	s.contract = common.BytesToAddress(rbytes(t, "bsc_contract", 20))
 	s.world = newEVMWorld(t, s.contract, p.src, p.dst, in.Seq, in.Value)
 	gas := rapid.Uint64Range(1_000_000, 100_000_000).Draw(t, "bsc_gas")
